@@ -113,7 +113,7 @@ let run_c01 toks obs =
     end)
 
 let run_c08 toks obs =
-  match toks with "e2ec" :: _ -> C13.run_e2ec toks obs | _ ->
+  match toks with "e2ec" :: _ -> C13.run_e2ec toks obs | "e2eb" :: _ -> C13.run_e2eb toks obs | "cc" :: _ -> C13.run_cc toks obs | _ ->
   C13.with_trace toks obs (fun id k evs tr ->
     match List.filter (fun t -> let n = String.length "timeout/cancel-returned" in String.length t >= n && String.sub t 0 n = "timeout/cancel-returned") (Abstract.timeouts evs)
           @ List.filter (fun t -> String.length t >= 13 && String.sub t 0 13 = "timeout/await") (Abstract.timeouts evs) with
